@@ -781,6 +781,87 @@ theorem validator_accepts_refresh_partial (now₁ now₂ : Int) (ref : Ref) (o :
     unfold usPerSec at *; omega
   simp [this]
 
+/-! ## 8. the final report of a session -/
+
+theorem final_report_monotone (r : Report) (op : SessionOp) (e : Nat) (h : e ∈ r.final) :
+    e ∈ (r.apply op).final := by
+  unfold Report.final at *
+  cases op with
+  | found t c =>
+    simp only [Report.apply, List.mem_append] at *
+    rcases h with (h | h) | h <;> simp [h]
+  | refresh =>
+    simp only [Report.apply, List.mem_append, List.flatten_append, List.flatten_cons, List.flatten_nil,
+      List.append_nil] at *
+    rcases h with (h | h) | h <;> simp [h]
+
+theorem final_report_monotone_ops (ops : List SessionOp) (r : Report) (e : Nat) (h : e ∈ r.final) :
+    e ∈ (ops.foldl Report.apply r).final := by
+  induction ops generalizing r with
+  | nil => exact h
+  | cons op rest ih => exact ih _ (final_report_monotone r op e h)
+
+/-- **monotone accumulation**: an error found at any step of a session – on the validator itself
+(the cross-refresh findings) or in the manifest tree of that moment – is in the final report
+`get_errors()`, whatever passes and however many refreshes follow; in particular
+`has_errors()` is true at the end. -/
+theorem final_report_contains_every_pass (pre post : List SessionOp) (top tree : List Nat) (e : Nat)
+    (h : e ∈ top ∨ e ∈ tree) :
+    e ∈ (runSession (pre ++ SessionOp.found top tree :: post)).final ∧
+    (runSession (pre ++ SessionOp.found top tree :: post)).hasErrors = true := by
+  have hmem : e ∈ (runSession (pre ++ SessionOp.found top tree :: post)).final := by
+    unfold runSession
+    rw [List.foldl_append, List.foldl_cons]
+    apply final_report_monotone_ops
+    unfold Report.final
+    simp only [Report.apply, List.mem_append]
+    rcases h with h | h
+    · exact Or.inl (Or.inr (Or.inr h))
+    · exact Or.inr (Or.inr h)
+  refine ⟨hmem, ?_⟩
+  unfold Report.hasErrors
+  cases hf : (runSession (pre ++ SessionOp.found top tree :: post)).final with
+  | nil => rw [hf] at hmem; cases hmem
+  | cons x xs => rfl
+
+theorem final_report_only_findings_aux (e : Nat) (ops : List SessionOp) :
+    ∀ (r : Report), e ∈ (ops.foldl Report.apply r).final →
+      e ∈ r.final ∨ ∃ t c, SessionOp.found t c ∈ ops ∧ (e ∈ t ∨ e ∈ c) := by
+  induction ops with
+  | nil => intro r hr; exact Or.inl hr
+  | cons op rest ih =>
+    intro r hr
+    rcases ih (r.apply op) hr with h1 | ⟨t, c, hm, he⟩
+    · cases op with
+      | found t c =>
+        unfold Report.final at h1 ⊢
+        simp only [Report.apply, List.mem_append] at h1 ⊢
+        rcases h1 with (h1 | h1 | h1) | h1 | h1
+        · simp [h1]
+        · simp [h1]
+        · exact Or.inr ⟨t, c, by simp, Or.inl h1⟩
+        · simp [h1]
+        · exact Or.inr ⟨t, c, by simp, Or.inr h1⟩
+      | refresh =>
+        unfold Report.final at h1 ⊢
+        simp only [Report.apply, List.mem_append, List.flatten_append, List.flatten_cons, List.flatten_nil,
+          List.append_nil] at h1 ⊢
+        rcases h1 with (h1 | h1) | h1 <;> simp [h1]
+    · exact Or.inr ⟨t, c, List.mem_cons_of_mem _ hm, he⟩
+
+/-- and nothing is invented: every error of the final report was found at some step -/
+theorem final_report_only_findings (ops : List SessionOp) (e : Nat)
+    (h : e ∈ (runSession ops).final) :
+    ∃ t c, SessionOp.found t c ∈ ops ∧ (e ∈ t ∨ e ∈ c) := by
+  rcases final_report_only_findings_aux e ops Report.init h with h0 | h0
+  · simp [Report.init, Report.final] at h0
+  · exact h0
+
+/-- an AST finding (id 7, on the validator itself) at the first of five refreshes, segment findings
+in the tree around it: all are in the final report -/
+example : (runSession [.found [] [], .refresh, .found [7] [3], .refresh, .found [8] [], .refresh,
+    .found [] [4], .refresh, .found [] [], .refresh, .found [] []]).final = [3, 4, 7, 8] := by decide
+
 /-! ## non-vacuity and negative witnesses -/
 
 /-- a sound clear video fragment: 4 samples, trun pointing at the mdat payload -/
